@@ -314,6 +314,49 @@ def run(ck: Check) -> int:
                     shutil.rmtree(tmp, ignore_errors=True)
         sr.distinct = 10
     ck.search('cwd-history', s_cwd_hist)
+
+    def s_fd_in_use(sr):
+        # dir_fd while the caller itself is reading that descriptor: a half-consumed os.scandir(fd) is still open when glob runs through the
+        # same fd — same list as through root_dir (added after seeded change C12k: the walker scanned the caller's descriptor directly instead of
+        # opening the directory again, so it shared the caller's read offset and saw only the tail of the directory, or nothing)
+        import shutil
+        import tempfile
+        tmp = tempfile.mkdtemp(prefix='c12f-', dir='/tmp')
+        sr.note = ('a directory of 40 entries; fd = os.open(dir); it = os.scandir(fd); k entries taken (k = 0, 1, 5, all); glob / iglob through dir_fd=fd '
+                   '(str and bytes, *, **, *.txt, */, NODIR) = through root_dir; twice in a row; the scandir iterator is closed afterwards')
+        try:
+            os.makedirs(os.path.join(tmp, 'sub'))
+            for k in range(36):
+                open(os.path.join(tmp, f'f{k:02d}.txt' if k % 3 else f'g{k:02d}.py'), 'w').close()
+            open(os.path.join(tmp, 'sub', 's.txt'), 'w').close()
+            os.symlink('sub', os.path.join(tmp, 'lnk'))
+            for pat, fl in (('*', 0), ('**', G.GLOBSTAR), ('*.txt', 0), ('*/', 0), ('*', G.NODIR), ('**/*.txt', G.GLOBSTAR)):
+                want = sorted(G.glob(pat, flags=fl, root_dir=tmp))
+                for k in (0, 1, 5, 100):
+                    fd = os.open(tmp, os.O_RDONLY | os.O_DIRECTORY)
+                    it = os.scandir(fd)
+                    try:
+                        for _ in range(k):
+                            if next(it, None) is None:
+                                break
+                        runs = [('glob', sorted(G.glob(pat, flags=fl, dir_fd=fd))), ('glob again', sorted(G.glob(pat, flags=fl, dir_fd=fd))),
+                                ('iglob(bytes)', sorted(os.fsdecode(x) for x in G.iglob(os.fsencode(pat), flags=fl, dir_fd=fd)))]
+                    finally:
+                        it.close()
+                        os.close(fd)
+                    for how, got in runs:
+                        sr.evaluations += 1
+                        if got != want:
+                            ck.report(Failing(f'{how}({pat!r}, dir_fd=fd) while os.scandir(fd) has been read {k} entries deep differs from glob(root_dir=)',
+                                              {'pattern': pat, 'flags': fl, 'history': f'fd = open(dir); it = scandir(fd); {k} x next(it); glob(dir_fd=fd)'},
+                                              f'{len(want)} paths', f'{len(got)} paths: {got[:5]}'), None)
+                            sr.histogram['FAIL'] = sr.histogram.get('FAIL', 0) + 1
+                        else:
+                            sr.histogram['same'] = sr.histogram.get('same', 0) + 1
+            sr.distinct = 24
+        finally:
+            shutil.rmtree(tmp, ignore_errors=True)
+    ck.search('descriptor-in-use', s_fd_in_use)
     if drv:
         drv.close()
     return ck.finish(assumptions=[
